@@ -107,6 +107,14 @@ func init() {
 	props["C07"].Harnesses = append(props["C07"].Harnesses,
 		HarnessSpec{Name: "VH_C07_decrypt_cert", Replay: "native"},
 		HarnessSpec{Name: "VH_C07_recipient", Replay: "native", Panics: true})
+	reg(&PropSpec{ID: "C14",
+		Harnesses: []HarnessSpec{
+			{Name: "VH_C14_auth_url", Replay: "native", Unwind: 400},
+			{Name: "VH_C14_logout_url", Replay: "native", Unwind: 400},
+		},
+		Bounds:  map[string]string{"quick": "IdP endpoint with 0..1 pre-existing query parameter; relay state any string over [A-Za-z0-9._~-] plus space & = + %; signing on/off; POST vs redirect flavour; document an arbitrary tree", "thorough": "same"},
+		Outside: []string{"DEFLATE and base64 encoders themselves (inverse-pair contracts)", "relay states outside the stated alphabet (QueryEscape is defined by replacement only on it)", "AuthRedirect (net/http)"},
+	})
 	retrieve := []HarnessSpec{
 		{Name: "VH_C08_retrieve", Replay: "native", Unwind: 400, Panics: true, QuickOnly: true},
 		{Name: "VH_C08_retrieve_deep", Replay: "native", Unwind: 400, Panics: true, Thorough: true},
